@@ -184,29 +184,41 @@ def numbering(check, P):
             else:
                 check.ok("R2", "job line sent with lineno and checksum; lineno and queueindex advance by one")
     check.floor(main >= 1 and resend >= 1, f"C15.R2/R3: main-queue paths {main}, resend paths {resend}")
-    # inside the resend window with every queue possibly non-empty: the resend comes first and alone
-    def setup_window(I_):
-        setup(I_)
-        pc = I_.heap[W.ref("pc").addr]
-        pc.fields.update(resendfrom=Const(3), lineno=Const(5))
-    win = 0
-    for path in I.explore(setup_window, lambda I_, _: W.call_method(I_, "pc", "_sendnext", ()), max_dev=None, max_paths=5000):
-        n += 1
-        if path.outcome != "return":
-            continue
-        win += 1
-        sends = calls(path, "printcore._send")
-        pc = path.heap[W.ref("pc").addr]
-        shape = [tuple(I.const_int(x) if I.const_int(x) is not None else x for x in s_.data["args"][2:]) for s_ in sends]
-        first = sends[0].data["args"][1] if sends else None
-        ok = (len(sends) == 1 and isinstance(first, Unk) and "pc.sentlines" in first.tag and shape[0][0] == 3
-              and (len(shape[0]) == 1 or shape[0][1] == FALSE) and I.const_int(pc.fields.get("resendfrom")) == 4)
-        if ok:
-            check.ok("R3", "resendfrom=3 < lineno=5: sentlines[3] re-sent first and alone, resendfrom -> 4")
-        else:
-            check.violation("R3", "resend:window", f"with resendfrom=3 and lineno=5 pending, _sendnext sends {[s_.data['args'][1:] for s_ in sends]} and leaves "
-                            f"resendfrom={pc.fields.get('resendfrom')!r}; the requested line must be re-sent before anything else", [decisions_text(path, 14)])
-    check.floor(win >= 1, "C15.R3: no path inside the resend window")
+    # the boundaries of the resend window, with every queue possibly non-empty: inside (-1 < resendfrom < lineno)
+    # the resend comes first and alone, outside no stored line is re-sent
+    for rf, ln_, inside in ((0, 5, True), (3, 5, True), (4, 5, True), (0, 1, True), (-1, 5, False), (5, 5, False), (-1, 0, False)):
+        def setup_window(I_, rf=rf, ln_=ln_):
+            setup(I_)
+            pc = I_.heap[W.ref("pc").addr]
+            pc.fields.update(resendfrom=Const(rf), lineno=Const(ln_))
+        win = 0
+        for path in I.explore(setup_window, lambda I_, _: W.call_method(I_, "pc", "_sendnext", ()), max_dev=None, max_paths=5000):
+            n += 1
+            if path.outcome != "return":
+                continue
+            win += 1
+            sends = calls(path, "printcore._send")
+            pc = path.heap[W.ref("pc").addr]
+            shape = [tuple(I.const_int(x) if I.const_int(x) is not None else x for x in s_.data["args"][2:]) for s_ in sends]
+            first = sends[0].data["args"][1] if sends else None
+            stored = [s_ for s_ in sends if isinstance(s_.data["args"][1], Unk) and "pc.sentlines" in s_.data["args"][1].tag]
+            if inside:
+                ok = (len(sends) == 1 and isinstance(first, Unk) and "pc.sentlines" in first.tag and shape[0][0] == rf
+                      and (len(shape[0]) == 1 or shape[0][1] == FALSE) and I.const_int(pc.fields.get("resendfrom")) == rf + 1)
+                if ok:
+                    check.ok("R3", f"resendfrom={rf} < lineno={ln_}: sentlines[{rf}] re-sent first and alone, resendfrom -> {rf + 1}")
+                else:
+                    check.violation("R3", "resend:window" if rf not in (0,) else "resend:window:first-line",
+                                    f"with resendfrom={rf} and lineno={ln_} pending, _sendnext sends {[s_.data['args'][1:] for s_ in sends]} and leaves "
+                                    f"resendfrom={pc.fields.get('resendfrom')!r}; the requested line {rf} must be re-sent before anything else "
+                                    "(line 0 is the first job line after M110 N-1)", [decisions_text(path, 14)])
+            else:
+                if not stored:
+                    check.ok("R3", f"resendfrom={rf}, lineno={ln_}: outside the window, no stored line is re-sent")
+                else:
+                    check.violation("R3", "resend:outside-window", f"with resendfrom={rf} and lineno={ln_} (no resend pending) _sendnext re-sends a stored line: "
+                                    f"{[s_.data['args'][1:] for s_ in stored]}", [decisions_text(path, 14)])
+        check.floor(win >= 1, f"C15.R3: no path for resendfrom={rf}, lineno={ln_}")
     # the resent line can itself be corrupted: the same line number is requested again
     def setup_repeat(I_):
         setup(I_)
